@@ -341,7 +341,34 @@ def gen_neuron_any(rng, name, sh, dt, cls):
             "adaptive": cls in ADAPTIVE}
 
 
-def gen_anyclass(rng, kind, classes):
+SYNAPSES = ["DeltaCurrent", "DeltaPlusCurrent", "SingleExponentialCurrent", "DoubleExponentialCurrent"]
+
+
+def gen_synapse(rng, cls):
+    q = rfl(rng, 20, 45)
+    kw = {"spike_charge": q}
+    if cls in ("DeltaCurrent", "DeltaPlusCurrent"):
+        kw["interp_mode"] = rng.choice(["previous", "nearest"])
+    if cls == "SingleExponentialCurrent":
+        kw["time_constant"] = rfl(rng, 1.5, 6)
+    if cls == "DoubleExponentialCurrent":
+        kw["tc_decay"] = rfl(rng, 4, 9)
+        kw["tc_rise"] = rfl(rng, 1, 3)
+    return {"cls": cls, "kw": kw}
+
+
+def f32_case(x):
+    import struct
+    if isinstance(x, float):
+        return struct.unpack("f", struct.pack("f", x))[0]
+    if isinstance(x, list):
+        return [f32_case(v) for v in x]
+    if isinstance(x, dict):
+        return {k: f32_case(v) for k, v in x.items()}
+    return x
+
+
+def gen_anyclass(rng, kind, classes, syn=None, dtype=None):
     """a layer of the given kind over the given neuron classes, run in TRAINING mode long enough for the adaptations to
     move away from their initial zeros, then clear() with DEFAULT arguments in mid-run, then the same inputs again (the
     reference rebuilds fresh components carrying the adaptations), then the other clear variants"""
@@ -352,6 +379,10 @@ def gen_anyclass(rng, kind, classes):
         c["charge"] = rfl(rng, 25, 50)
         c["W"] = [[rfl(rng, 0.5, 1.5) for _ in r] for r in c["W"]]
         c["bias"] = None
+        if syn:
+            # any synapse class, a delayed connection (maximum delay 3 steps) with learned NON-ZERO delays
+            c["syn"] = gen_synapse(rng, syn)
+            c["delay"] = {"max": 3, "D": [[rng.randint(1, 3) for _ in r] for r in c["W"]]}
         return c
     if kind == "serial":
         nsh = rng.choice(SHAPES)
@@ -371,6 +402,18 @@ def gen_anyclass(rng, kind, classes):
         def fwd():
             return ["fwd", [[c["name"], [gen_tensor(rng, [B] + ish)]] for c in conns], [], rng.random() < 0.3]
         clear = lambda sub, keep: ["clear", sub, keep]
+    elif kind == "parallel":
+        # hand-written Layer subclass with identity wiring (wiring returns the dict it was given)
+        lanes = []
+        for j, c in enumerate(classes):
+            nsh = rng.choice(SHAPES)
+            lanes.append((dict(strong(gen_conn(rng, 1 + j, ish, nsh, dt)), tr=None), dict(gen_neuron_any(rng, 1 + j, nsh, dt, c), tr=None)))
+        conns, neurs = [l[0] for l in lanes], [l[1] for l in lanes]
+        case = {"kind": "parallel", "B": B, "dt": dt, "conns": conns, "neurs": neurs}
+
+        def fwd():
+            return ["fwd", [[c["name"], [gen_tensor(rng, [B] + ish)]] for c in conns], [], rng.random() < 0.6]
+        clear = lambda sub, keep: ["clear", sub, keep]
     else:
         fsh, bsh = rng.choice(SHAPES), rng.choice(SHAPES)
         while nel(bsh) == nel(fsh):
@@ -385,7 +428,7 @@ def gen_anyclass(rng, kind, classes):
         clear = lambda sub, keep: ["clear", True, sub, keep]
     block = [fwd() for _ in range(rng.randint(10, 16))]
     for o in block:       # dense input so that the groups really fire
-        xs = o[1] if kind != "biclique" else [t for _, ts in o[1] for t in ts]
+        xs = o[1] if kind not in ("biclique", "parallel") else [t for _, ts in o[1] for t in ts]
         for t in xs:
             t["el"] = [float(rng.random() < 0.8) for _ in t["el"]]
     ops = copy.deepcopy(block) + [clear(True, None)] + copy.deepcopy(block[:6])
@@ -397,6 +440,11 @@ def gen_anyclass(rng, kind, classes):
     ops += [clear(True, True), fwd(), clear(False, None), fwd(), clear(True, False), fwd(), fwd(), clear(True, None), fwd()]
     case["ops"] = ops
     case["model"] = False
+    if dtype:
+        # every constant exactly representable in float32, so that building under one default dtype and casting to the
+        # other loses nothing (a freshly built-and-cast layer and a cleared layer then agree bit for bit)
+        case = f32_case(case)
+        case["dtype"] = dtype
     return case
 
 
@@ -409,6 +457,19 @@ def gen_anyclass_cases(rng, reps):
             other = rng.choice(ADAPTIVE + PLAIN)
             out.append(gen_anyclass(rng, "biclique", [cls, other]))
             out.append(gen_anyclass(rng, "recurrent", rng.sample([cls, other], 2)))
+        # every synapse class on DELAYED connections with learned non-zero delays (clear must wipe the whole history)
+        for sc in SYNAPSES:
+            out.append(gen_anyclass(rng, "serial", [rng.choice(PLAIN + ADAPTIVE)], syn=sc))
+            out.append(gen_anyclass(rng, rng.choice(["biclique", "recurrent"]), [rng.choice(PLAIN), rng.choice(PLAIN + ADAPTIVE)], syn=sc))
+        # a hand-written Layer subclass whose wiring is the identity, with and without capture_intermediate
+        for _ in range(3):
+            out.append(gen_anyclass(rng, "parallel", [rng.choice(PLAIN + ADAPTIVE) for _ in range(rng.choice([1, 2, 3]))]))
+        # torch default dtype float32 with the layer cast to float64, and the reverse: clear() must keep dtype and device
+        for dd in ({"default": "float32", "cast": "float64"}, {"default": "float64", "cast": "float32"}):
+            for cls in PLAIN + ADAPTIVE:
+                out.append(gen_anyclass(rng, rng.choice(["serial", "biclique", "recurrent", "parallel"]),
+                                        [cls, rng.choice(PLAIN + ADAPTIVE)], dtype=dd,
+                                        syn=(rng.choice(SYNAPSES) if rng.random() < 0.4 else None)))
     return out
 
 
@@ -733,7 +794,7 @@ def run(ctx):
     exhaustive = ctx["tier"] == "thorough"
     if exhaustive:
         cases += exhaustive_cases(4)
-    anyc = gen_anyclass_cases(random.Random(ctx["seed"] + 17), 2 if ctx["tier"] == "quick" else 12)
+    anyc = gen_anyclass_cases(random.Random(ctx["seed"] + 17), 1 if ctx["tier"] == "quick" else 8)
     impl = F.run_impl(IMPL, {"cases": cases})
     model = F.eval_terms(ID, HEADER, [q_case(c) for c in cases], shard=20 if ctx["tier"] == "quick" else 60)
     # oracle-only stream (all neuron classes; not evaluated in Coq)
